@@ -64,7 +64,13 @@ def run_profiles(ctx, binary, plan, procs=16):
 
     def one(j):
         profile, m, seed, out = j
-        p = vlib.run_harness(binary, ["-random", str(m), "-profile", profile, "-seed", str(seed), "-out", out], timeout=3600)
+        args = ["-random", str(m), "-profile", profile, "-seed", str(seed), "-out", out]
+        try:
+            p = vlib.run_harness(binary, args, timeout=3600)
+        except vlib.Infra as e:
+            # a scenario hit the per-scenario watchdog (machine overloaded): run the chunk once more with a longer one
+            vlib.log("harness chunk %s/%d failed (%s); retrying once" % (profile, seed, str(e)[:200].replace("\n", " ")))
+            p = vlib.run_harness(binary, args + ["-watchdog", "600"], timeout=3600)
         return out, json.loads(p.stdout.strip().splitlines()[-1])
 
     with concurrent.futures.ThreadPoolExecutor(max_workers=procs) as ex:
